@@ -224,11 +224,13 @@ func runC16(c *core.Ctx) {
 				return true
 			}
 			// an empty key with an empty value first (its record header is six zero bytes), then the records under test
-			if !put([]byte{}, []byte{}) {
+			// the record under test goes into the still empty first segment; then an empty key with an empty value
+			// (its record header is six zero bytes) followed by further records
+			if !put(k1, v1) || !put([]byte{}, []byte{}) {
 				return
 			}
 			c.Stat("empty_key_empty_value", 1)
-			if !put(k1, v1) || !put(k2, v2) || !put([]byte("small"), []byte{}) || !put(k1, v3) {
+			if !put(k2, v2) || !put([]byte("small"), []byte{}) || !put(k1, v3) {
 				return
 			}
 			c.Stat("empty_values", 1)
@@ -360,8 +362,14 @@ func runC16(c *core.Ctx) {
 			c.Stat("clean_restarts", 1)
 			d = verifyExact(db2, want, absent)
 			if d == "" {
-				// D8's shape: a write after the restart, then a crash image: the new value must win
-				if !bytes.Equal(want[string(k1)], v1) {
+				// writes after the restart, then a crash image: the new values must win. First a small record (it fits
+				// wherever the log continues after the restart), then the record under test again.
+				nv := core.MakeVal(999, 9)
+				if err := db2.Put([]byte("small"), nv); err != nil {
+					d = "Put after restart: " + err.Error()
+				}
+				want["small"] = nv
+				if d == "" && !bytes.Equal(want[string(k1)], v1) {
 					if err := db2.Put(k1, v1); err != nil {
 						d = "Put after restart: " + err.Error()
 					}
